@@ -17,7 +17,7 @@ NOT_DECIDED = [
     "IOCB timeouts (IOCB.set_timeout arms a task that calls abort: covered by the idempotence of abort_io / complete_io, the task itself is C14)",
     "end-to-end runs of two stacks over a faulty medium are bounded (simulation stage); the unbounded whole-history claim is by the invariant argument, see assumptions",
 ]
-EXPLANATION = ("A client transaction is a real ClientSSM object with symbolic fields, registered with a real StateMachineAccessPoint exactly when it is live. "
+EXPLANATION = ("(The device-info record handed back to the cache when a transaction ends is exactly the one it acquired at its creation, once -- also when the peer was entered into the cache while the request was outstanding.) A client transaction is a real ClientSSM object with symbolic fields, registered with a real StateMachineAccessPoint exactly when it is live. "
                "For every live state and every kind of inbound PDU (18 state x kind units, arbitrary header fields), for every timeout and for the start of a "
                "request, the entry point preserves the class invariant (live <=> tracked by the access point <=> a timer is armed; terminal <=> untracked and "
                "no timer; other transactions untouched), hands the application exactly one PDU exactly when the transaction ends (ack / error / reject / abort with its "
